@@ -1116,3 +1116,11 @@ class Rotate(om.ExplicitComponent):
                 partials["mesh", "in_mesh"][nn5:nn6] = -self.ref_axis_pos * d_dq_flat1
                 nn7 = nn6 + del_n
                 partials["mesh", "in_mesh"][nn6:nn7] = -self.ref_axis_pos * d_dq_flat2
+
+        else:
+            # Without the x rotation, every chordwise row still depends on the leading and
+            # trailing edge rows through the reference axis.
+            del_n = nn - 9 * ny
+            d_qch_od = np.tile(d_qch.flatten(), nx - 1)
+            partials["mesh", "in_mesh"][nn : nn + del_n] = (1 - self.ref_axis_pos) * d_qch_od
+            partials["mesh", "in_mesh"][nn + del_n : nn + 2 * del_n] = self.ref_axis_pos * d_qch_od
